@@ -9,7 +9,7 @@ GROUP = "g04"
 PROP_FILE = "C04.v"
 HARNESS = "c04"
 # files of the group that are not needed by C04's property file (a failure there is noted, not fatal for C04)
-OTHER_FILES = ("C06.v", "Creds.v", "CredsCheck.v", "CredsProofs.v", "CredsOracle.v", "CredsObligations.v", "Gaps.v")
+OTHER_FILES = ("C06.v", "Creds.v", "CredsCheck.v", "CredsProofs.v", "CredsTable.v", "CredsOracle.v", "CredsObligations.v", "Gaps.v")
 
 
 def load_jsonl(p):
